@@ -230,6 +230,21 @@ def global_state_snapshot():
         pass
     snap['errcall'] = repr(np.geterrcall())
     snap['recursionlimit'] = sys.getrecursionlimit()
+    # interpreter- / process-wide settings a numerical library has no business
+    # changing
+    import decimal, gc, locale, logging, os, random, signal   # noqa
+    snap['bufsize'] = np.getbufsize()
+    snap['environ'] = hash(frozenset(getattr(os.environ, '_data', os.environ).items()))
+    snap['cwd'] = os.getcwd()
+    snap['python_random'] = hash(random.getstate())
+    snap['decimal'] = repr(decimal.getcontext())
+    root = logging.getLogger()
+    snap['logging'] = (root.level, len(root.handlers), logging.root.manager.disable)
+    snap['gc'] = (gc.isenabled(), gc.get_threshold())
+    snap['sigint'] = repr(signal.getsignal(signal.SIGINT))
+    snap['profile'] = repr(sys.getprofile())
+    snap['locale'] = locale.setlocale(locale.LC_ALL)
+    snap['threads'] = threading.active_count()
     try:
         import sklearn
         snap['sklearn_config'] = {k: repr(v) for k, v in
